@@ -167,7 +167,14 @@ impl Runner {
                     }
                     Obs::Resp(resp)
                 }
-                Err(e) => machinery_failure(&format!("unparsable runner response: {}", e)),
+                Err(e) => {
+                    // A runner whose interpreter has corrupted the process's memory can answer with anything.
+                    // That is the subject's doing (the protocol itself is exercised millions of times per
+                    // run on the unchanged tree): the case ends in a crash, the runner is replaced.
+                    eprintln!("runner answered with something that is not a response ({}): {:?}", e, line.chars().take(160).collect::<String>());
+                    self.kill();
+                    Obs::Crash(None)
+                }
             },
             Err(RecvTimeoutError::Timeout) => {
                 self.kill();
